@@ -17,6 +17,7 @@ RULE = ("(1) every file under mpn/x86_64/** is assembled alone into its own shar
         "choices must be kernels of the running CPU's vendor family), --enable-assert, --enable-alloca=debug/malloc-reentrant/malloc-notreentrant, and "
         "--build=<cpu> for the x86-64 CPU families; every result is compared with the Python oracle, hence identical across configurations. "
         "distinct_nontrivial = distinct (kernel file | configuration, routine, size, content index, scalar) tuples.")
+RULE = RULE + (" " + 'Later additions: --enable-alloca=debug rebuild in the quick tier with the whole aliasing table under it; one fresh process per fat dispatch slot (the first dispatched call must agree with the same call after initialisation); per-CPU rebuilds drop -march when the host lacks an ISA extension the compiler could use.')
 ASSUMPTIONS = ["kernels that need an ISA extension the host lacks are recorded as not executable here (the property's own exclusion), not as violations",
                "mod_1_1/2/3 kernels return an unnormalised two-limb residue: they are checked through the defining congruence, not byte for byte",
                "identical-to-oracle under every configuration implies identical across configurations"]
